@@ -123,6 +123,10 @@ def scenarios() -> list[tuple]:
         # arrives on each open outside socket until the deadline
         for ph in (("transfer", 0), ("first-data", 0)):
             out.append((h, "offline+chatty", ph))
+        # hosts without IPv6 (the exit's IPv6 outside socket cannot be created), torn down by the originator / abandoned
+        for ini in ("O", "offline"):
+            for ph in (("transfer", 0), ("first-data", 0)):
+                out.append((h, f"{ini}+noipv6", ph))
     return out
 
 
@@ -140,6 +144,8 @@ def run_one(scn: tuple, faults: dict[int, str], seed: int):  # noqa: ANN201
                         curves={"L": busy.split(":")[1]})
     else:
         w = TunnelWorld(("c09", seed, scn), ROLES, key_offset=seed)
+    if busy == "noipv6":
+        w.loop.fail_datagram_endpoint = "ipv6"       # these hosts have no IPv6: the exit's second outside socket fails
     try:
         plan = FaultPlan(w, {int(i): f for i, f in faults.items() if str(i) != "sched"})
         ov = w.ov
@@ -169,7 +175,7 @@ def run_one(scn: tuple, faults: dict[int, str], seed: int):  # noqa: ANN201
         if busy:
             for name in path:
                 o = ov[name]
-                if busy == "chatty":
+                if busy in ("chatty", "noipv6"):
                     continue
                 if busy == "busy":
                     o.candidates.clear()        # knows nobody it could build through ...
@@ -220,11 +226,15 @@ def run_one(scn: tuple, faults: dict[int, str], seed: int):  # noqa: ANN201
         if open_tr:
             viol.append((f"open-socket|initiator:{ini}|phase:{phase}",
                          f"outside sockets still open at deadline: {open_tr}; {trail}"))
-        if w.loop.exceptions:
+        excs = list(w.loop.exceptions)
+        if busy == "noipv6":
+            # the failure to create the IPv6 socket is reported by the socket-creation task itself: that is the scenario
+            excs = [e for e in excs if not (isinstance(e.get("exception"), OSError) and e["exception"].errno == 97)]
+        if excs:
             import traceback
             msgs = sorted({"".join(traceback.format_exception(e["exception"]))[-700:] if e.get("exception")
-                           else str(e.get("message"))[:200] for e in w.loop.exceptions})
-            viol.append((f"loop-exception|{str(w.loop.exceptions[0].get('exception'))[:50]}", f"{trail}: {msgs[:2]}"))
+                           else str(e.get("message"))[:200] for e in excs})
+            viol.append((f"loop-exception|{str(excs[0].get('exception'))[:50]}", f"{trail}: {msgs[:2]}"))
         obs = (tuple(sorted(sizes.items())), len(open_tr), did, plan.count, round(w.loop.time() - t0))
         return viol, plan.count, obs
     finally:
@@ -740,9 +750,11 @@ def join_limit_checks(seed: int) -> tuple[list, int]:
     """max_joined_circuits = 2; 4 originators' create requests in every order; joined count never exceeds the limit."""
     viol, execs = [], 0
     names = ["A", "B", "C", "D"]
-    for limit, route in [(lim, r) for lim in (1, 2) for r in ("attr-after-load", *CONFIG_ROUTES)]:
+    # "slow-executor": anything the node hands to a worker thread takes 2 loop iterations to come back (the stock inline
+    # executor of the virtual loop hides every interleaving between the hand-off and the result)
+    for limit, route in [(lim, r) for lim in (1, 2) for r in ("attr-after-load", "slow-executor", *CONFIG_ROUTES)]:
         for order in itertools.permutations(range(4)):
-            if route == "attr-after-load":
+            if route in ("attr-after-load", "slow-executor"):
                 w = TunnelWorld(("c09j", seed, limit, order), {**{n: RELAY for n in names}, "X": EXIT_ALL},
                                 key_offset=seed)
             else:
@@ -750,15 +762,18 @@ def join_limit_checks(seed: int) -> tuple[list, int]:
                                 key_offset=seed, route=route, max_joined_circuits=limit)
             try:
                 x = w.ov["X"]
-                if route == "attr-after-load":
+                if route in ("attr-after-load", "slow-executor"):
                     x.settings.max_joined_circuits = limit
+                if route == "slow-executor":
+                    w.loop.executor_delay = 2
                 cs = [w.start_circuit(n, ["X"]) for n in names]
                 assert len(w.inflight) == 4
                 dgs = list(w.inflight)
                 w.inflight.clear()
                 peak = 0
                 for i in order:
-                    w.deliver_datagram(dgs[i])
+                    # slow executor: the four creates arrive back to back, before any worker thread has answered
+                    w.deliver_datagram(dgs[i], settle=route != "slow-executor")
                     peak = max(peak, len(x.relay_from_to) + len(x.exit_sockets))
                 w.flush()
                 peak = max(peak, len(x.relay_from_to) + len(x.exit_sockets))
